@@ -3,6 +3,7 @@
     Enc/RleModel.v (src/encoding/rle.c).  The other encodings are restated from the enc2 engine below. *)
 From Coq Require Import NArith List.
 From Carquet Require Import Base.Res Enc.BitpackSpec Enc.BitpackModel Enc.BitpackProofs Enc.BitpackNProofs
+  Enc.BitpackLoopModel Enc.BitpackLoopProofs
   Enc.RleSpec Enc.RleModel Enc.RleDecProofs Enc.RleProofs File.ForeignModel Enc.RleLevelsRoundtrip.
 Import ListNotations.
 Local Open Scope N_scope.
@@ -23,6 +24,21 @@ Print Assumptions bitpack8_roundtrip_exact.
 Theorem bitpack8_size : forall w vs, length (pack8 w vs) = w.
 Proof. exact pack8_length. Qed.
 Print Assumptions bitpack8_size.
+
+(** The C loops themselves (src/core/bitpack.c mirrored statement by statement in Enc/BitpackLoopModel.v: the
+    eight specialised unpackers, the dispatch switch, the general 9..32-bit gather loop, the memset + scatter
+    loop of the packer, with checked reads/writes/shifts and explicit 8/16/32/64-bit wraps) compute exactly the
+    closed forms [unpack8] / [pack8] used above, faults included, at every width 0..32 and for every input:
+    so the theorems of this file are theorems about the loops. *)
+Theorem bitunpack8_loops_refine : forall w input, (w <= 32)%nat -> Forall (fun b => b < 256) input ->
+  unpack8_c w input = unpack8 w input.
+Proof. exact unpack8_c_eq_total. Qed.
+Print Assumptions bitunpack8_loops_refine.
+
+Theorem bitpack8_loops_refine : forall w vs, (w <= 32)%nat -> length vs = 8%nat ->
+  pack8_c w vs = Ok (pack8 w vs).
+Proof. exact pack8_c_eq_total. Qed.
+Print Assumptions bitpack8_loops_refine.
 
 (** Raw bit packing of any number of values (carquet_bitpack_32 / carquet_bitunpack_32, widths 1..32;
     at width 0 nothing is written and zeros come back): the unpacker returns the values and reports
